@@ -270,6 +270,15 @@ func genGraph(rt *rapid.T, prefix string, maxN, depth int, condErr bool) *Gr {
 		}
 		sts[i] = s
 	}
+	// now and then a second stage that schedules the same pipeline object again, after the first use
+	for i := 0; i < n; i++ {
+		if sts[i].Nested != nil && sts[i].Outcome != CondFalse && rapid.IntRange(0, 3).Draw(rt, "reuse-pipeline") == 0 {
+			r := &St{Name: name(n), ID: fmt.Sprintf("%s%d", prefix, n), Deps: []string{sts[i].Name}, Outcome: OK,
+				Nested: sts[i].Nested, ReuseOf: sts[i].ID, Allow: rapid.Bool().Draw(rt, "reuse-allow")}
+			sts = append(sts, r)
+			break
+		}
+	}
 	return &Gr{Stages: rapid.Permutation(sts).Draw(rt, "declaration-order")}
 }
 
